@@ -61,7 +61,9 @@ func c20Gen(rng *verifsim.RNG, idx int, tier string) *Plan {
 	p.Class = "real-tasks"
 
 	sigAt := int64(rng.Dur(100*time.Millisecond, horizon)) + jitter(rng)
-	sig := []string{"SIGTERM", "SIGINT", "SIGHUP"}[rng.Intn(3)]
+	// (whatever the process may be sent and has not ignored: anything but SIGHUP
+	// means terminate)
+	sig := []string{"SIGTERM", "SIGINT", "SIGHUP", "SIGTERM", "SIGINT", "SIGHUP", "SIGQUIT", "SIGUSR1"}[rng.Intn(8)]
 	if scripted {
 		p.Class = "scripted"
 		n.OnlyScript = rng.Bool(0.7)
